@@ -242,7 +242,8 @@ def Registry.probingDoneReg (r : Registry) (a : RR) (svcName : BList) (start : N
 /-! ### packets -/
 
 /-- `DnsOutgoing`: one message (the histories of the fragment never exceed one datagram).
-    `id` is what goes on the wire: `DnsOutgoing::multicast` is always true, so 0. -/
+    `id` is what goes on the wire: 0 for a multicast message, the query's id for a legacy
+    unicast response (`set_unicast`). -/
 structure Packet where
   id : Nat := 0
   flags : Nat
@@ -477,10 +478,10 @@ def cleanup (s : State) : State × List Out :=
 
 /-! ### `RegisterResend` -/
 
-/-- `exec_command_register_resend`: the service is looked up under the name AS REGISTERED
-    (original letter case) in the map keyed by lower-case names -/
+/-- `exec_command_register_resend`: the service is looked up under the lower-cased name
+    (repair of D8: the map is keyed by lower-case names) -/
 def execRegisterResend (s : State) (now jitter : Nat) (fullname : BList) (ifIdx : Nat) : State × List Out :=
-  match alookup fullname s.services, alookup ifIdx s.registries, s.intfs.find? (·.index == ifIdx) with
+  match alookup (lower fullname) s.services, alookup ifIdx s.registries, s.intfs.find? (·.index == ifIdx) with
   | some svc, some r0, some i =>
     let r1 := prepareAnnounceReg svc i r0 true now jitter
     let p4 := prepareAnnouncePkt svc i r0 true
@@ -488,7 +489,7 @@ def execRegisterResend (s : State) (now jitter : Nat) (fullname : BList) (ifIdx 
     let p6 := prepareAnnouncePkt svc i r1 false
     let s1 := s.setRegistry ifIdx r2
     if p4.isSome || p6.isSome then
-      ({ s1 with services := aset fullname (svc.setStatus ifIdx .announced) s1.services },
+      ({ s1 with services := aset (lower fullname) (svc.setStatus ifIdx .announced) s1.services },
        sendsOf i p4 p6 ++ notify s (.announceAt (r2.resolveName fullname) (r2.resolveName svc.host) i.name))
     else (s1, [])
   | _, _, _ => (s, [])
@@ -690,11 +691,11 @@ def tiebreak (now : Nat) (auths : List Wire.Rec) (reg : Registry) (q : Wire.Ques
 
 def clearFlush (r : RR) : RR := { r with flush := false }
 
-/-- the response packet of `handle_query`; legacy unicast echoes the questions and clears
-    every cache-flush bit -/
+/-- the response packet of `handle_query`; legacy unicast echoes the id and the questions
+    and clears every cache-flush bit -/
 def responsePkt (msg : Wire.Msg) (unicast : Bool) (r : Resp) : Packet :=
   if unicast then
-    { flags := FLAGS_RESPONSE, questions := msg.questions.map fun q => (q.name, q.ty),
+    { id := msg.id, flags := FLAGS_RESPONSE, questions := msg.questions.map fun q => (q.name, q.ty),
       answers := r.answers.map clearFlush, additionals := r.additionals.map clearFlush }
   else { flags := FLAGS_RESPONSE, answers := r.answers, additionals := r.additionals }
 
